@@ -21,6 +21,8 @@ def declare(c):
     c.rule('C03.R3', 'the re-positioning words are valid in the positioning mode the file selected', floor=3)
     c.rule('C03.R4', 'every word of the exit commands is the firmware-side logical value of the tracked native '
                      'position ((current-offset-homeOffset)/unitMultiplier), feed rate in file units', floor=6)
+    c.rule('C03.R7', 'inside an episode every move with an X/Y/Z word is tested against the regions and, when it tests outside, '
+                     'closes the episode with the exit sequence', floor=100)
     c.rule('C03.R6', 'excluding is cleared only by exitExcludedRegion / resetState and set only by enterExcludedRegion',
            floor=3)
 
@@ -183,6 +185,20 @@ def path_rules(col, gcode, paths, I):
                 col.report('C03.R6', 'GcodeHandlers.handleGcode', '%s opens an episode without enterExcludedRegion' % gcode,
                            'the episode flag is set on a path that does not go through enterExcludedRegion',
                            detail={'entry': p.entry, 'decisions': f.decisions()})
+        if not f.raised and f.pre_excluding is True and gcode in ('G0', 'G1', 'G2', 'G3') and f.pre_enabled is not False:
+            moved = gcode in ('G2', 'G3') and ('ExcludeRegionState', 'processLinearMoves') in f.calls
+            moved = moved or f.valued('X') or f.valued('Y') or f.valued('Z')
+            if moved:
+                col.instance('C03.R7', (gcode, f.describe(), tuple(f.decisions()[-4:])))
+                if not f.region_tested:
+                    col.report('C03.R7', 'ExcludeRegionState.processLinearMoves', '%s inside an episode is not tested against the regions' % gcode,
+                               'a move with an X/Y/Z word is processed during an episode without testing its destination: if it '
+                               'leaves the region the episode stays open and the printer is never re-positioned (%s)' % f.describe(),
+                               detail={'entry': p.entry, 'decisions': f.decisions()})
+                elif not f.any_excluded and f.post_excluding() is not False:
+                    col.report('C03.R7', 'ExcludeRegionState.processLinearMoves', '%s leaves the region but the episode stays open' % gcode,
+                               'the destination tested outside every region, yet the exit sequence is not produced',
+                               detail={'entry': p.entry, 'decisions': f.decisions()})
         if not f.raised and f.pre_excluding is True and f.post_excluding() is True:
             col.instance('C03.R2', (gcode, 'inside', f.describe()))
             for e in p.st.trace:
